@@ -30,4 +30,84 @@ theorem C18_other_failures (t : Tool) (ht : t = .run ∨ t = .recordStart ∨ t 
 theorem C18_range (t : Tool) (o : CliOutcome) : exitStatus t o ≤ 2 := by
   cases t <;> cases o <;> simp [exitStatus]
 
+
+/-! ## With the front ends' own argument checks -/
+
+theorem exactlyOne_supplied (a : KeyArgs) (h : a.exactlyOne = true) : a.signerSupplied = true := by
+  unfold KeyArgs.exactlyOne at h
+  unfold KeyArgs.signerSupplied
+  cases h1 : truthyStr a.key <;> cases h2 : a.gpg.truthy <;> cases h3 : truthyStr a.signingKey <;>
+    simp [h1, h2, h3] at h ⊢
+
+/-- **C18 for in-toto-run.** Status 0 exactly when the argument checks passed and
+the library call succeeded; and then something to sign with was handed to the
+library (so the link file was written, `C11_link_spec`). In particular an empty
+key argument is never status 0. -/
+theorem C18_run_zero_iff (a : RunArgs) (work : CliOutcome) :
+    runStatus a work = 0 ↔ a.usageOk = true ∧ work = .success := by
+  unfold runStatus frontOutcome
+  cases h : a.usageOk <;> simp [C18_zero_iff]
+
+theorem C18_run_zero_signer (a : RunArgs) (work : CliOutcome) (h : runStatus a work = 0) :
+    a.keys.signerSupplied = true := by
+  have h' := ((C18_run_zero_iff a work).mp h).1
+  unfold RunArgs.usageOk at h'
+  simp only [Bool.and_eq_true] at h'
+  exact exactlyOne_supplied _ h'.1.2
+
+theorem C18_run_usage (a : RunArgs) (work : CliOutcome) (h : a.usageOk = false) : runStatus a work = 2 := by
+  simp [runStatus, frontOutcome, h, exitStatus]
+
+theorem C18_run_empty_key (a : RunArgs) (work : CliOutcome)
+    (h : truthyStr a.keys.key = false ∧ a.keys.gpg.truthy = false ∧ truthyStr a.keys.signingKey = false) :
+    runStatus a work = 2 := by
+  apply C18_run_usage
+  simp [RunArgs.usageOk, KeyArgs.exactlyOne, h.1, h.2.1, h.2.2]
+
+theorem C18_record_zero_iff (t : Tool) (a : RecordArgs) (work : CliOutcome) :
+    recordStatus t a work = 0 ↔ a.usageOk = true ∧ work = .success := by
+  unfold recordStatus frontOutcome
+  cases h : a.usageOk <;> simp [C18_zero_iff]
+
+theorem C18_verify_zero_iff (a : VerifyArgs) (work : CliOutcome) :
+    verifyStatus a work = 0 ↔ a.usageOk = true ∧ work = .success := by
+  unfold verifyStatus frontOutcome
+  cases h : a.usageOk <;> simp [C18_zero_iff]
+
+/-- in-toto-verify without any usable key argument is a usage error whatever the layout. -/
+theorem C18_verify_no_keys (a : VerifyArgs) (work : CliOutcome)
+    (h : truthyList a.layoutKeys = false ∧ truthyList a.gpg = false ∧ truthyList a.verificationKeys = false) :
+    verifyStatus a work = 2 := by
+  simp [verifyStatus, frontOutcome, VerifyArgs.usageOk, h.1, h.2.1, h.2.2, exitStatus]
+
+/-- **C18 for in-toto-sign.** Status 0 exactly when every check passed, the file
+loaded, and the signing / verification itself succeeded. -/
+theorem C18_sign_zero_iff (a : SignArgs) (f : SignFile) (work : CliOutcome) :
+    signStatus a f work = 0 ↔
+      a.usageOkBeforeLoad = true ∧ f ≠ .unloadable ∧ (f = .link → a.usageOkAfterLoad true = true) ∧ work = .success := by
+  unfold signStatus
+  rw [C18_zero_iff]
+  unfold signOutcome
+  cases h1 : a.usageOkBeforeLoad <;> cases f <;> simp
+  · cases h2 : a.usageOkAfterLoad true <;> simp
+
+/-- in-toto-sign never reports a failed operation as 0 and reports a failed
+signature check as 1. -/
+theorem C18_sign_verify_sigfail (a : SignArgs) (f : SignFile) (hv : a.verify = true)
+    (h : signOutcome a f .sigCheckFailed = .sigCheckFailed) : signStatus a f .sigCheckFailed = 1 := by
+  simp [signStatus, hv, h, exitStatus]
+
+def exEmptyKey : RunArgs :=
+  { argparseOk := true
+    keys := { key := none, gpg := .absent, signingKey := some [] }
+    noCommand := false
+    linkCmd := [lit "true"] }
+def exGpgFlag : RunArgs :=
+  { argparseOk := true
+    keys := { key := none, gpg := .flag, signingKey := none }
+    noCommand := true
+    linkCmd := [] }
+example : runStatus exEmptyKey .success = 2 := by decide
+example : runStatus exGpgFlag .success = 0 := by decide
+
 end InToto
